@@ -175,7 +175,7 @@ var headRE = regexp.MustCompile(`^func\s+(\(\*?[\w.]+\)[.\w$]+|[^\s(]+)\s*\(([^)
 var fieldRE = regexp.MustCompile(`^field\s+([^\s(]+)\s*\(([^)]*)\)\s*(?:\(([^)]*)\))?\s*$`)
 var specRE = regexp.MustCompile(`^spec\s+(rec\s+)?(\w+)\s*\(([^)]*)\)\s*(\S+)\s*=\s*(.*)$`)
 var abstractRE = regexp.MustCompile(`^spec\s+abstract\s+(\w+)\s*\(([^)]*)\)\s*(\S+)\s*(?:~\s*(.*))?$`)
-var tagRE = regexp.MustCompile(`\s*@((?:C\d+|assume)(?:,(?:C\d+|assume))*)\s*$`)
+var tagRE = regexp.MustCompile(`\s*@((?:C\d+|assume|local)(?:,(?:C\d+|assume|local))*)\s*$`)
 
 func splitNames(s string) []string {
 	var out []string
